@@ -71,3 +71,36 @@ def nothing_after_body(chk, prog, rid, cfg=None):
                        f"and the surplus is read as the start of the next response on a kept-alive connection",
                        where=body.where(b2), cfg=cfg)
         chk.ob(rid, f, "body append located", True, where=body.where(b), cfg=cfg)
+
+
+def response_reads(chk, prog, rid, cfg=None):
+    """The response parser (and parse_chunk) read only through read_exact / read_until; a read_to_end (e.g. on a
+    `take(n)`) is accepted only if every Ok exit is dominated by a length-equality test on that buffer."""
+    from . import c02
+    from .. import panics
+    chk.rule(rid, "R-CALLS: Response::from_stream / parse_chunk read with read_exact / read_until only (short bodies are errors, not truncated successes)")
+    good = 0
+    for fn in ("humphrey::http::response::Response::from_stream", "humphrey::http::response::parse_chunk"):
+        b = prog.bodies.get(fn)
+        chk.floor(fn.split("::")[-1], 1 if b else 0, 1)
+        if not b:
+            continue
+        oks = core.ok_return_blocks(b, "Ok") + core.ok_return_blocks(b, "Some")
+        for blk, t in b.calls():
+            if core.call_matches(t, c02.GOOD_READ):
+                good += 1
+            elif core.call_matches(t, r"Read::read_to_end$|Read::read_to_string$"):
+                buf = panics._strip(describe(prog, b, t["args"][1]))
+                after = [o for o in oks if o in b.reachable(b.succs(blk))]
+                ok = bool(after)
+                for o in after:
+                    facts = panics.cmp_facts(prog, b, o)
+                    if not any(op == "==" and (panics._len_of(a) == buf or panics._len_of(r) == buf) for (a, op, r) in facts):
+                        ok = False
+                chk.ob(rid, fn, "read_to_end result is length-checked before success", ok,
+                       "the body is read with read_to_end (which stops quietly at end of stream) and returned without comparing its length with the claimed "
+                       "length: an upstream that disconnects mid-body yields a truncated 200 instead of an error", where=b.where(blk), cfg=cfg)
+            elif core.call_matches(t, c02.BARE_READ):
+                chk.ob(rid, fn, f"bare read {t['callee'].split('::')[-1]} in the response parser", False,
+                       "a partial read would be taken for complete data", where=b.where(blk), cfg=cfg)
+    chk.floor("exact reads in the response parser", good, 6)
